@@ -567,12 +567,27 @@ func gen(c *lib.Ctx) {
 		cliCSPTP.kill()
 	}()
 	_ = r
+	skipped := map[string]bool{}
+	run := func(op string) string {
+		ans := lib.Try(func() string { return exec1(strings.Fields(op)) })
+		if strings.HasPrefix(ans, "skip") {
+			// sandbox trouble (ports, start-up): not executed, never a verdict
+			if !skipped[ans] {
+				skipped[ans] = true
+				c.NotExecuted("socket-level sub-run skipped: " + ans)
+			}
+			c.Count("skipped")
+			return ans
+		}
+		c.Emit(op, ans)
+		return ans
+	}
 	do := func(sig, op string) {
-		ans := c.Do(op)
+		ans := run(op)
 		c.Count(strings.Fields(op)[0] + ":" + strings.Fields(ans)[0])
 		if ans == "dead" || ans == "stalled" {
 			// confirm in isolation: fresh child, same single input
-			ans2 := c.Do(op)
+			ans2 := run(op)
 			if ans2 == "dead" || ans2 == "stalled" {
 				c.Fail("C08:net:"+sig+":"+ans2, "a single crafted input terminates or stalls the process that received it",
 					[]string{op}, map[string]any{"first": ans, "isolated_rerun": ans2})
